@@ -19,7 +19,11 @@
    reply dispatch / when_disconnected / connectionLost IS the reference machine for every operation
    sequence; no command is resolved twice; after the loss every submitted command - those submitted
    from inside a disconnect notification included - is resolved (by its reply, by the caller, or by
-   the loss); every request to be told is honoured exactly once; nothing is written after the loss. *)
+   the loss); every request to be told is honoured exactly once; nothing is written after the loss.
+   The loss may also arrive from inside a reply callback (QReplyLose: the caller's callback on the in-flight
+   command's reply hangs up and the transport reports the loss synchronously, so connectionLost runs while
+   that command is still recorded as in flight): all C03_cancel_* theorems quantify over every operation list
+   and so cover it; C03_cancel_replylose_fails_queue gives its exact trace. *)
 From Coq Require Import List Bool Ascii Arith NArith.
 From TxVerif Require Import Lib.Bytes Spec.Ctl Model.CtlProto Proofs.CtlInv.
 From TxVerif Require Import Spec.CtlOracle Proofs.CtlRefine Proofs.CtlRefine3.
@@ -110,6 +114,50 @@ Theorem C03_cancel_nothing_written_after_loss : forall pre post tr,
   q_ref (pre ++ QLose :: post) = Some tr -> quiet (List.concat (skipn (length pre) tr)) = true.
 Proof. exact cancel_nothing_written_after_loss. Qed.
 Print Assumptions C03_cancel_nothing_written_after_loss.
+
+(* the two statements above that name QLose, generalised to "QLose or an effective QReplyLose"
+   (loses s o: o is QLose, or o is QReplyLose and nobody has resolved the command in flight in s;
+   s1 is the state the prefix leads to) *)
+Theorem C03_cancel_loss_is_final_gen : forall pre o post s1 t1 s' tr,
+  r_exec r_init pre = Some (s1, t1) -> loses s1 o = true ->
+  r_exec r_init (pre ++ o :: post) = Some (s', tr) -> r_lost s' = true.
+Proof. exact cancel_loss_is_final_gen. Qed.
+Print Assumptions C03_cancel_loss_is_final_gen.
+
+Theorem C03_cancel_nothing_written_after_loss_gen : forall pre o post s1 t1 tr,
+  r_exec r_init pre = Some (s1, t1) -> loses s1 o = true ->
+  q_ref (pre ++ o :: post) = Some tr -> quiet (List.concat (skipn (length pre) tr)) = true.
+Proof. exact cancel_nothing_written_after_loss_gen. Qed.
+Print Assumptions C03_cancel_nothing_written_after_loss_gen.
+
+(* a reply whose callback hangs up, in EVERY state (reachable or not) in which a command nobody has resolved
+   is in flight: that command is resolved with its reply; the observers are told (d holds notifications
+   only); every later command nobody has resolved - the queued ones, and those the observers' callbacks have
+   just submitted - fails exactly once, in submission order; the answered command does not fail; nothing is
+   written (the next queued command is not sent); the connection is lost *)
+Theorem C03_cancel_replylose_fails_queue : forall s s' es,
+  r_step s QReplyLose = Some (s', es) -> memN (r_a s) (r_res s) = false ->
+  exists d,
+    es = QRes (r_a s) QOk :: d ++
+         map (fun k => QRes k QDisc)
+             (filter (fun k => negb (memN k (r_res s)))
+                     (seqN (r_a s + 1) (N.to_nat (r_n s' - (r_a s + 1))))) /\
+    flat_map ev_res d = [] /\ quiet es = true /\ r_lost s' = true /\ r_w s' = r_w s.
+Proof. exact cancel_replylose_fails_queue. Qed.
+Print Assumptions C03_cancel_replylose_fails_queue.
+
+(* non-vacuity: one command in flight, two queued (the caller gives up on the second), an observer whose
+   callback submits a command; the reply of the first arrives and its callback hangs up: it is answered, the
+   observer is told, commands 1 and 3 fail - 3 is the one just submitted -, 2 does not fail again, 1 is never
+   written; a later submission fails at once; a second loss is outside the envelope *)
+Example C03_cancel_replylose_nonvacuous :
+  q_run [QSubmit; QSubmit; QSubmit; QWatch WSubmit; QCancel 2; QReplyLose; QSubmit]%N
+  = Some [[QWrote 0]; []; []; []; [QRes 2 QCancelled];
+          [QRes 0 QOk; QNote 0; QRes 1 QDisc; QRes 3 QDisc]; [QRes 4 QDisc]]%N /\
+  q_run [QSubmit; QSubmit; QCancel 0; QReplyLose; QLose]%N
+  = Some [[QWrote 0]; []; [QRes 0 QCancelled]; [QWrote 1]; [QRes 1 QDisc]]%N /\
+  q_run [QSubmit; QReplyLose; QLose]%N = None.
+Proof. vm_compute. repeat split. Qed.
 
 (* three commands, the caller gives up on the one in flight and on a queued one; two observers, one
    submitting a command, one asking again; then the loss: the observers are told in order (the nested
